@@ -115,6 +115,25 @@ def run(F, R, ctx):
                "Synchronizer::%s reads a thread's context pointer once instead of retrying until the thread has parked at a "
                "safepoint: a thread that is still running is skipped, so its stack is not scanned / its environment not "
                "updated while the world is supposedly stopped" % nm, fn.loc(), sample=True)
+    # ---- r: every interpreter thread is registered with the synchronizer, so that a stop request reaches it
+    R.rule("C15.r", "every function that creates a thread handle for an interpreter thread (constructs ThreadHandle: "
+                    "SteelThread::new, Engine::clone, spawn_native_thread, VmCore::make_thread, …) pushes a ThreadContext "
+                    "for it into Synchronizer.threads; an unregistered thread is never stopped and its stack never scanned")
+    creators = []
+    for n, fn in F.fns.items():
+        if not n.startswith("steel::") or fn.d["kind"] == "Closure":
+            continue
+        if re.search(r"\{impl Clone for Thread(Context|Handle)\}", n):
+            continue
+        if any(e[1] == "ThreadHandle" for _, e in lib.family_events(F, fn, "agg")):
+            creators.append(fn)
+    R.floor("C15.r", "thread-handle creators", len(creators), 4)
+    for fn in creators:
+        pushes = [b for _, b in lib.family_calls(F, fn) if re.search(r"Vec<T,A>\}::push$", b["callee"]) and b["targs"] and b["targs"][0] == "ThreadContext"]
+        R.inst("C15.r", "%s registers the thread with the synchronizer" % fn.short(), bool(pushes),
+               "%s creates a ThreadHandle but never pushes a ThreadContext into Synchronizer.threads: stop_threads / "
+               "enumerate_stacks do not know the thread, so a collection runs while it mutates its stack and never marks what "
+               "only it references" % fn.short(), fn.loc(), sample=True)
     # ---- s
     for nm, ctl, extra in (("stop_threads", "pause_for_safepoint", None), ("resume_threads", "resume", r"Thread\}::unpark$")):
         fn = F.one(r"^steel::steel_vm::vm::\{impl Synchronizer\}::%s$" % nm)
